@@ -278,10 +278,44 @@ def _build(case, trace):
             return falcon.after(g)
         for k, (kind, a) in reversed(hooks[n_class:]):  # decorators apply innermost first
             on_x = hook(k, kind, a)(on_x)
-        cls = type('Res', (), {'on_get' if target == 'route' else 'on_post': on_x})
-        for k, (kind, a) in reversed(hooks[:n_class]):
-            cls = hook(k, kind, a)(cls)
-        app.add_route('/', cls())
+        # where the responder lives in the class hierarchy of the routed resource (class-level hooks apply to every responder of the
+        # decorated class, inherited and suffixed ones included)
+        layout = case.get('layout', 'flat')
+        suffix = 'items' if layout in ('suffix', 'inherited_suffix') else None
+        rname = ('on_get' if target == 'route' else 'on_post') + ('_' + suffix if suffix else '')
+        if asgi:
+            async def other(self, req, resp): act('ret', resp, 'WRONG-responder')
+        else:
+            def other(self, req, resp): act('ret', resp, 'WRONG-responder')
+
+        def deco(c, hs):
+            for k, (kind, a) in reversed(hs):
+                c = hook(k, kind, a)(c)
+            return c
+        if layout in ('flat', 'suffix'):
+            cls = deco(type('Res', (), {rname: on_x, 'on_delete': other}), hooks[:n_class])
+        elif layout in ('inherited', 'inherited_suffix'):
+            base = type('Base', (), {rname: on_x})
+            cls = deco(type('Res', (base,), {'on_delete': other}), hooks[:n_class])
+        elif layout == 'grandparent':
+            base = type('Base', (), {rname: on_x})
+            mid = type('Mid', (base,), {'on_put': other})
+            cls = deco(type('Res', (mid,), {'on_delete': other}), hooks[:n_class])
+        elif layout == 'mixin':
+            mixin = type('Mixin', (), {rname: on_x})
+            plain = type('Plain', (), {'helper': lambda self: None})
+            cls = deco(type('Res', (plain, mixin), {'on_delete': other}), hooks[:n_class])
+        elif layout == 'base_decorated':
+            base = deco(type('Base', (), {rname: on_x}), hooks[:n_class])
+            cls = type('Res', (base,), {'on_delete': other})
+        elif layout == 'split_decorated':
+            # the outer half of the class-level hooks decorates the subclass, the inner half the base class
+            h = n_class // 2
+            base = deco(type('Base', (), {rname: on_x}), hooks[h:n_class])
+            cls = deco(type('Res', (base,), {'on_delete': other}), hooks[:h])
+        else:
+            raise AssertionError(layout)
+        app.add_route('/', cls(), **({'suffix': suffix} if suffix else {}))
     elif target == 'sink':
         ra = case['responder']
         if asgi:
@@ -427,6 +461,7 @@ def _execute(ctx, sess, hsess, case, via_testing=False, xsess=None):
     ctx.count(f'faults_{min(nf, 4)}{"+" if nf >= 4 else ""}')
     if case['hooks']:
         ctx.count(f"hooks_{len(case['hooks'])}")
+        ctx.count('class_level_hooks_%d_layout_%s' % (min(case.get('class_hooks', 0), 1), case.get('layout', 'flat')))
     if exp_esc:
         ctx.count('escaped_no_handler' if trace and not trace[-1].startswith('h:') else 'escaped_handler_raised_plain_exception')
 
@@ -471,6 +506,9 @@ def _enumerated(ctx, max_single, max_double):
                             yield len(pl), {'stack': stack, 'independent': indep, 'target': target, 'comps': comps, 'hooks': [], 'responder': responder}
 
 
+LAYOUTS = ['flat', 'suffix', 'inherited', 'inherited_suffix', 'grandparent', 'mixin', 'base_decorated', 'split_decorated']
+
+
 def _random_case(rnd):
     n = rnd.choice([0, 1, 2, 2, 3, 3, 4, 4, 5, 5])
     comps = []
@@ -489,6 +527,8 @@ def _random_case(rnd):
             'hooks': hooks, 'responder': 'ret'}
     if hooks:
         case['class_hooks'] = rnd.randint(0, len(hooks))
+    if target in ('route', 'nomethod') and rnd.random() < 0.6:
+        case['layout'] = rnd.choice(LAYOUTS)
     sites = [(ci, m) for ci, c in enumerate(comps) for m in METHS if c[m] is not None] + [('responder', None)] + [('hook', k) for k in range(len(hooks))]
     for (a, b) in rnd.sample(sites, min(len(sites), rnd.choice([0, 1, 1, 2, 2, 3, 4]))):
         f = rnd.choice(FAULTS)
